@@ -594,7 +594,14 @@ def check_dask_borders(prog, rep):
             raise AnalysisIncomplete('%s: dask path not found' % modname)
         f = paths[0].func()
         from ..dasksites import expanded_sites
-        sites = [s for s in expanded_sites(prog, f) if s.kind == 'map_overlap']
+        allsites = expanded_sites(prog, f)
+        sites = [s for s in allsites if s.kind == 'map_overlap']
+        for s in allsites:
+            if s.kind != 'map_overlap':
+                rep.add('L8-dask', f, '%s[dask]' % modname, norm(s.call)[:120], s.call.lineno, False,
+                        'a 3x3 operator reads its neighbours: every chunked evaluation on the dask path must be a map_overlap '
+                        'with a one-cell halo; `%s` evaluates blocks in isolation (cells at internal chunk seams get the border '
+                        'treatment) whatever condition selects it' % s.kind)
         if not sites:
             rep.add('L8-dask', f, '%s[dask]' % modname, 'map_overlap site', f.node.lineno, False,
                     'a 3x3 operator needs a one-cell halo on the dask path')
